@@ -15,7 +15,7 @@ RULE = (
     "scheme-relative / path / relative segment / ../ / ?query; entry point PoolManager | ProxyManager (forwarding + "
     "CONNECT tunnel) | bare HTTPConnectionPool; policy value None | False | int | Retry(redirect=k) | Retry(total=k) | "
     "Retry(.., raise_on_redirect=False) at request level, pool/manager level, or both; redirect=False; method GET/POST/PUT "
-    "with bytes or seekable-file body and content headers). The graph is the reference: Location values are built from "
+    "with bytes or seekable-file body and content headers; optionally a connection reset on one or two hops so that the hop is retried on error). The graph is the reference: Location values are built from "
     "the intended next node, so the sequence of (origin, method, target, body, content headers) the SERVERS saw must be "
     "a prefix of the graph walk, not longer than 1 + budget. Non-trivial = the chain has >= 2 hops and the budget is hit, "
     "or a hop crosses origins, or a 303 occurs."
@@ -73,6 +73,23 @@ def run_case(case) -> list[Failure]:
     run = redirects.Run(graph, proxy=(case["entry"] == "proxy"))
     spec = effective(case)
     budget, ror = redirects.policy_budget(spec)
+    faults = case.get("faults") or []
+    if faults:
+        # a reset instead of a response on the i-th request: the (idempotent) request is retried on error, which
+        # costs one unit of `total`; only generated where that arithmetic is unambiguous
+        if not isinstance(faults, list) or len(faults) > 2 or any(not isinstance(i, int) or not (0 <= i <= 6) for i in faults) or case["method"] not in ("GET", "DELETE") or case.get("body") is not None:
+            raise core.InvalidCase
+        tot = {"none": 3, "int": spec.get("v"), "retry": spec.get("total", 10), "false": False}[spec["t"]]
+        if tot is False or tot is None or tot < len(faults) + 1:
+            raise core.InvalidCase
+        red = spec.get("redirect") if spec["t"] == "retry" else None
+        if red is False:
+            raise core.InvalidCase
+        # The statement bounds the REDIRECTS by the redirect/total budget; whether an error retry inside a hop is charged to
+        # the same total differs between the bare pool (charged) and the managers (not charged) - both satisfy the
+        # statement, so with faults only the upper bound, the walk and the no-follow clauses are asserted.
+        budget = min(x for x in (red, tot) if x is not None)
+        run.world.fault_plan = {i: "reset" for i in faults}
     follow = case.get("redirect_kw", True) and spec["t"] != "false"
     if not case.get("redirect_kw", True):
         budget_eff = 0
@@ -168,7 +185,7 @@ def run_case(case) -> list[Failure]:
             if k not in names:
                 fails.append(Failure("content-headers", {**sig0, "what": "lost-other"}, f"hop {idx} lost the caller's {k}: {brief()}"))
     # ---- S4: how it ended
-    if not fails:
+    if not fails and not faults:
         last = nodes[contacts[-1]["node"]] if contacts and contacts[-1]["node"] is not None else None
         if last is None:
             fails.append(Failure("ending", {**sig0, "what": "nothing-sent"}, brief()))
@@ -295,6 +312,18 @@ def enum_cases(tier):
                     hops = [(0, codes[i], ("abs", "path", "absport")[(k + i) % 3], 0) for i in range(n)]
                     yield {"kind": "redir", "entry": "pool", "graph": chain_graph(hops), "method": ("GET", "POST")[k % 2], "body": (None, "bytes")[k % 2],
                            "req_policy": pol if place == "request" else None, "mgr_policy": pol if place == "manager" else None, "redirect_kw": True}
+    # a connection error on one hop (the request is retried) inside a redirect chain
+    for entry in ("pm", "proxy", "pool"):
+        for code in (302, 307, 303):
+            for fault_at in (0, 1, 2):
+                for pol in ({"t": "retry", "redirect": 1}, {"t": "retry", "redirect": 3}, {"t": "none"}, {"t": "int", "v": 3}):
+                    for redirect_kw in (True, False):
+                        for place in ("request", "manager"):
+                            k += 1
+                            o1, o2 = (0, 0) if entry == "pool" else (1, 2)
+                            g = chain_graph([(0, code, "abs", o1), (o1, code, "abs" if entry == "pool" else "netpath" if ORIGINS[o1][0] == ORIGINS[o2][0] else "abs", o2), (o2, code, "path", o2)])
+                            yield {"kind": "redir", "entry": entry, "graph": g, "method": "GET", "body": None, "req_policy": pol if place == "request" else None, "mgr_policy": pol if place == "manager" else None,
+                                   "redirect_kw": redirect_kw, "faults": [fault_at]}
     # redirect=False and loops
     for entry in ("pm", "proxy", "pool"):
         for code in redirects.CODES:
@@ -332,9 +361,12 @@ def _hyp():
                     nd["form"] = "abs"
         place = draw(st.sampled_from(["request", "manager", "both", "default"]))
         method = draw(st.sampled_from(["GET", "POST", "PUT", "DELETE"]))
-        return {"kind": "redir", "entry": entry, "graph": g, "method": method, "body": None if method in ("GET", "DELETE") else draw(st.sampled_from(["bytes", "file"])),
-                "req_policy": draw(pol) if place in ("request", "both") else None, "mgr_policy": draw(pol) if place in ("manager", "both") else None,
-                "redirect_kw": draw(st.integers(0, 7)) != 0}
+        c = {"kind": "redir", "entry": entry, "graph": g, "method": method, "body": None if method in ("GET", "DELETE") else draw(st.sampled_from(["bytes", "file"])),
+             "req_policy": draw(pol) if place in ("request", "both") else None, "mgr_policy": draw(pol) if place in ("manager", "both") else None,
+             "redirect_kw": draw(st.integers(0, 7)) != 0}
+        if method in ("GET", "DELETE") and draw(st.integers(0, 2)) == 0:
+            c["faults"] = sorted(set(draw(st.lists(st.integers(0, 4), min_size=1, max_size=2))))
+        return c
 
     return case()
 
